@@ -204,7 +204,7 @@ def run_config(v, ctx, tftpd, thorough, names, cfgname, dist, ow, rng):
     all_names = names + extra + rnd
     use_strace = thorough and cfgname in ("shared", "distinct+overwrite")
     strace_path = os.path.join(sb["logs"], "strace.out") if use_strace else None
-    srv = N.Server(tftpd, sb["srv"], overwrite=ow, send_dir=sb["srv"] if dist else None, recv_dir=sb["rcv"] if dist else None, logdir=sb["logs"], strace=strace_path, shuffle=rng)
+    srv = N.Server(tftpd, sb["srv"], overwrite=ow, send_dir=sb["srv"] if dist else None, recv_dir=sb["rcv"] if dist else None, logdir=sb["logs"], strace=strace_path, shuffle=rng, d_last=(cfgname == "distinct"))
     with srv:
         for kind in ("RRQ", "WRQ"):
             B = 24
